@@ -57,9 +57,9 @@ var c06NodeOnly = map[string]string{
 	"newmetrics":             "metrics",
 	"metrics.endstagecommit": "metrics", "metrics.endstageprepare": "metrics", "metrics.endstageproposal": "metrics",
 	"metrics.setround": "metrics", "metrics.startstage": "metrics",
-	"instance.setconfig":   "test / wiring setter; C01-R5 forbids protocol-state writes outside the instance's handlers",
-	"instance.bumptoround": "D1: State.Round = x plus a metrics call; compared inlined through its store",
-	"init":                 "package init (metrics registration)",
+	"instance.setconfig":      "test / wiring setter; C01-R5 forbids protocol-state writes outside the instance's handlers",
+	"instance.bumptoround":    "D1: State.Round = x plus a metrics call; compared inlined through its store",
+	"init":                    "package init (metrics registration)",
 	"isproposaljustification": "",
 }
 
@@ -701,21 +701,22 @@ func c06Accepted(c *core.Ctx, pair, side, item, where string) bool {
 // Reader sites of the message containers in the instance package, classified
 // by the round they query. Key: function|method|round-argument form.
 // class: "cur"  — State.Round;
-//        "msg"  — the round of the message being handled (≥ State.Round by BaseMsgValidation);
-//        "prep" — State.LastPreparedRound;
-//        "all"  — iterates every round and filters by > State.Round itself.
+//
+//	"msg"  — the round of the message being handled (≥ State.Round by BaseMsgValidation);
+//	"prep" — State.LastPreparedRound;
+//	"all"  — iterates every round and filters by > State.Round itself.
 var c06Readers = map[string]struct{ container, class string }{
-	"Instance.UponCommit|AddFirstMsgForSignerAndRound|p1":                                   {"Commit", "msg"},
-	"commitQuorumForRoundRoot|LongestUniqueSignersForRoundAndRoot|p3":                       {"Commit", "msg"},
-	"Instance.uponPrepare|MessagesForRound|p0.State.Round":                                  {"Prepare", "cur"},
-	"Instance.uponPrepare|AddFirstMsgForSignerAndRound|p1":                                  {"Prepare", "msg"},
-	"getRoundChangeJustification|MessagesForRound|p0.LastPreparedRound":                     {"Prepare", "prep"},
-	"Instance.uponProposal|AddFirstMsgForSignerAndRound|p1":                                 {"Propose", "msg"},
-	"Instance.uponRoundChange|MessagesForRound|p2.Message.Round":                            {"RoundChange", "msg"},
-	"Instance.uponRoundChange|AddFirstMsgForSignerAndRound|p2":                              {"RoundChange", "msg"},
-	"Instance.uponRoundChange|MessagesForRound|p0.State.Round":                              {"RoundChange", "cur"},
-	"hasReceivedPartialQuorum|AllMessaged|":                                                 {"RoundChange", "all"},
-	"hasReceivedProposalJustificationForLeadingRound|MessagesForRound|p3.Message.Round":     {"RoundChange", "msg"},
+	"Instance.UponCommit|AddFirstMsgForSignerAndRound|p1":                               {"Commit", "msg"},
+	"commitQuorumForRoundRoot|LongestUniqueSignersForRoundAndRoot|p3":                   {"Commit", "msg"},
+	"Instance.uponPrepare|MessagesForRound|p0.State.Round":                              {"Prepare", "cur"},
+	"Instance.uponPrepare|AddFirstMsgForSignerAndRound|p1":                              {"Prepare", "msg"},
+	"getRoundChangeJustification|MessagesForRound|p0.LastPreparedRound":                 {"Prepare", "prep"},
+	"Instance.uponProposal|AddFirstMsgForSignerAndRound|p1":                             {"Propose", "msg"},
+	"Instance.uponRoundChange|MessagesForRound|p2.Message.Round":                        {"RoundChange", "msg"},
+	"Instance.uponRoundChange|AddFirstMsgForSignerAndRound|p2":                          {"RoundChange", "msg"},
+	"Instance.uponRoundChange|MessagesForRound|p0.State.Round":                          {"RoundChange", "cur"},
+	"hasReceivedPartialQuorum|AllMessaged|":                                             {"RoundChange", "all"},
+	"hasReceivedProposalJustificationForLeadingRound|MessagesForRound|p3.Message.Round": {"RoundChange", "msg"},
 }
 
 // what compact may pass as the trimming bound for a container whose readers
